@@ -1,6 +1,8 @@
 \* C29 PoSA: family heco, chain configuration A (MCPoSA!SetsA), mode gen
 SPECIFICATION Spec
 CONSTANTS Family = "heco"
+          Epoch = 0
+          CliqueFixed = FALSE
           Sets <- SetsA
           GenesisSigner = "c"
           G0 = 200
